@@ -444,6 +444,7 @@ def run(ck: Check):
     ck.run_gen("locale")
     # tie by translation: AgVerif.Gen.PyLocale is the statement-by-statement translation (gen/py2lean.py) of
     # _unpack_language_or_region / _pack_language_or_region; Props/C30.lean proves gen_unpack_eq / gen_pack_eq
+    ck.run_gen("py2lean_selftest")    # translator self-test: the subset, construct by construct, against CPython
     ck.run_gen("py2lean_c30")
     ck.prove(exes=["drv_C30"])
     drv = Driver("drv_C30")
